@@ -9,21 +9,24 @@ from .model import DIR, ModelError, TreeModel, encode_text, is_under, parent_of,
 NAMES = ["a", "b", "c", "d", "mod", "pkg", "util", "x1"]
 DIRNAMES = ["pkg", "sub", "lib", "d1", "d2", "core"]
 
+# Top-level blocks; every text is a sequence of blocks, so it is valid Python
+# (rope's automatic static analysis then really parses and caches the module).
 LINES = [
     "x = 1",
     "y = 2",
-    "def f(a):",
-    "    return a + 1",
-    "class C:",
-    "    pass",
+    "def f(a):\n    return a + 1",
+    "class C:\n    pass",
     "# comment",
     "name = 'café'",
     "s = 'Жук'",
     "t = '日本'",
     "",
-    "z = x + y",
+    "z = 3 + 4",
     "import os",
+    "def g():\n    v = 'x'\n    return v",
+    "class D:\n    attr = 1\n    def m(self):\n        return self.attr",
 ]
+BROKEN_LINES = ["    return a + 1", "def broken(:", "class :"]
 
 ENCODINGS = [
     (None, None),
@@ -54,6 +57,8 @@ def gen_text(rng, enc_class=None, cookie=None, final_newline=None, min_lines=0):
     elif cookie == "utf-8":
         pool = list(LINES)
     lines = [rng.choice(pool) for _ in range(n)]
+    if lines and rng.random() < 0.12:
+        lines[rng.randrange(len(lines))] = rng.choice(BROKEN_LINES)
     if cookie:
         lines.insert(0, "# -*- coding: %s -*-" % cookie)
     text = "\n".join(lines)
@@ -144,16 +149,22 @@ def gen_edit_text(rng, tree, path, classes):
     pool = [l for l in LINES if l.isascii()] + _CLASS_LINES.get(cls, [])
     if cls is None and cookie in (None, "utf-8"):
         pool = list(LINES)
-    i = rng.randint(lo, max(lo, len(lines) - 1))
+    # top-level boundaries: inserting/deleting whole blocks there keeps the
+    # module syntactically valid most of the time
+    tops = [k for k in range(lo, len(lines)) if not lines[k][:1].isspace()] or [len(lines)]
+    i = rng.choice(tops)
+    nxt = min([k for k in tops if k > i] + [len(lines)])
     r = rng.random()
     if r < 0.45:
-        lines.insert(i, rng.choice(pool))
-    elif r < 0.7 and len(lines) > lo + 1:
-        del lines[i]
+        lines[i:i] = rng.choice(pool).split("\n")
+    elif r < 0.7 and len(tops) > 1 and i < len(lines):
+        del lines[i:nxt]
     elif i < len(lines):
-        lines[i] = rng.choice(pool)
+        lines[i:nxt] = rng.choice(pool).split("\n")
     else:
-        lines.append(rng.choice(pool))
+        lines.extend(rng.choice(pool).split("\n"))
+    if rng.random() < 0.08:
+        lines.insert(rng.randint(lo, len(lines)), rng.choice(BROKEN_LINES))
     new = "\n".join(lines)
     try:
         encode_text(new, "\n")
@@ -245,6 +256,9 @@ def gen_bad_op(rng, tree: TreeModel):
     files = tree.file_paths()
     dirs = tree.dirs()
     r = rng.random()
+    if r < 0.2 and files:
+        # text not encodable in the encoding its own coding line declares
+        return ["edit", rng.choice(files), "# -*- coding: ascii -*-\ns = 'Жук'\n"]
     if r < 0.35 and files:
         return ["mkfile", rng.choice(files)]  # create over an existing path
     if r < 0.5 and len(dirs) > 1:
